@@ -18,7 +18,7 @@ import nlgen, c19gen
 
 CHAIN_RE = re.compile(r'(_(\d+|slk|equ)_)*\Z')
 TOKSTART_RE = re.compile(r'_[^_]+_')
-N_THEOREMS = 26
+N_THEOREMS = 36
 
 
 def hx(s):
@@ -879,7 +879,15 @@ def run(ck):
         os.makedirs(common.BUILD, exist_ok=True)
         c19_cov.clean(common.BUILD)
     st = Stats()
-    proof_ok, failing = ck.proof_stage('MpVerif.C19.Props', 'MpVerif/C19/Props.lean', 'C19_', ['MpVerif/C19/*.lean'], expect_min=N_THEOREMS)
+    # translator: regenerate lean/MpVerif/Gen/C19Names.lean from the current tree (written only if changed)
+    gen = os.path.join(LEAN, 'MpVerif', 'Gen', 'C19Names.lean')
+    rc, tout, terr = sh([sys.executable, os.path.join(VERIF, 'translators', 'gen_names.py'), REPO, gen, os.path.join(BUILD, 'tr_c19')], timeout=600)
+    ck.log((tout.strip() or terr.strip())[-300:])
+    translator_ok = rc == 0
+    proof_ok, failing = ck.proof_stage('MpVerif.C19.Props', 'MpVerif/C19/Props.lean', 'C19_', ['MpVerif/C19/*.lean', 'MpVerif/Gen/C19Names.lean'], expect_min=N_THEOREMS)
+    if not translator_ok:
+        proof_ok = False
+        failing = ['translator gen_names.py: ' + (tout + terr).strip()[-300:]] + failing
     ck.log('proof stage: ok=%s failing=%s' % (proof_ok, failing[:10]))
     if ck.tier == 'thorough' and proof_ok:
         bad = ck.leanchecker(['MpVerif.C19.Props'])
@@ -952,5 +960,6 @@ def run(ck):
         'uniqueness is proved under decidable hypotheses evaluated on every run: source names suffix-free, every link source named when used (implied by the structural condition topoB), sibling labels distinct, no equal non-plain label leaving plain-related cells, no delivered cell below another delivered cell',
         'the exported graph (cvt:writegraph) lists the link entries in the order PresolveNames executes them',
         'names files: LF or CRLF line ends, non-empty lines (empty lines give empty names)']
-    ck.cov['trusted_base'] += ['harness/recsolver (recording ModelAPI), harness/h_names.cc (mmap wrapped to put a guard page before the file)',
+    ck.cov['trusted_base'] += ['translators/gen_names.py + clang-14 typed AST: std::string / fmt writer / C strings as List Char, size_t, int and char pointers into the names file as Nat (offsets; subtraction only where the code guards it), evaluation order of n_++ before the conditional operands',
+                               'harness/recsolver (recording ModelAPI), harness/h_names.cc (mmap wrapped to put a guard page before the file)',
                                'python reference for documented names (checks/c19.py expected_sources)']
